@@ -136,7 +136,7 @@ def gen_csession(rng):
                 sysv = sysv if rng.random() < 0.7 else gen_sysv(rng)
                 ops.append({'op': 'param', 'platform': rng.choice(PLATFORMS), 'nonprim': nonprim, 'sysv': sysv})
             elif c < 0.8:
-                name = rng.choice(['environment', 'environment', 'added', 'missing', 'none'] + declared)
+                name = rng.choice(['environment', 'environment', 'added', 'missing', 'none', '7.2'] + declared)
                 ops.append({'op': 'add', 'target': rng.choice([None, None, 'default', 'active']), 'name': ses.spell(rng, name),
                             'env': ses.gen_env(rng, [k for k, _ in launch], gall)})
             else:
@@ -148,7 +148,7 @@ def gen_csession(rng):
             if r < 0.6:
                 ops.append({'op': 'node', 'comp': rng.randrange(len(s['comps']))})
             elif r < 0.85:
-                ops.append({'op': 'name', 'name': rng.choice([None, '', 'environment', 'ENVIRONMENT', 'none', 'added', 'Added', 'missing']
+                ops.append({'op': 'name', 'name': rng.choice([None, '', 'environment', 'ENVIRONMENT', 'none', 'added', 'Added', 'missing', '7.2']
                                                               + declared)})
             else:
                 ops.append({'op': 'default'})
